@@ -68,17 +68,21 @@ def gen_consts(ctx, binp):
     vlib.write_if_changed(os.path.join(vlib.COQ, "Gen", "WireConsts.v"), "\n".join(lines) + "\n")
 
 
-def case_lit(c):
+def nums_lit(xs):
+    return '(nums "%s")' % ",".join(str(x) for x in xs)
+
+
+def case_lit(c, names):
     sp = c.get("sp")
-    spl = "None" if not sp else "(Some (%d, %d, %s))" % (sp[0], sp[1], vlib.coq_list(sp[2]))
+    spl = "None" if not sp else "(Some (%d, %d, %s))" % (sp[0], sp[1], nums_lit(sp[2]))
     cut = "None" if c["cut"] < 0 else "(Some %d)" % c["cut"]
     bad = vlib.coq_list(c["bad"], lambda e: "(%d, %d, %d, %d)" % tuple(e))
-    return "(%s, %s, %s, %s, %s, %s)" % (spl, cut, vlib.coq_list(c["obs"]), vlib.coq_list(c["ref"]), bad,
-                                         vlib.coq_list(c["fs"] or []))
+    return "(%s, %s, %s, %s, %s, %s)" % (spl, cut, names[tuple(c["obs"])], names[tuple(c["ref"])], bad,
+                                         names[tuple(c["fs"] or [])])
 
 
 PRELUDE = ("From NV Require Import FSTree.Wire Wire.Fast Wire.Ref Wire.Check.\n"
-           "From Coq Require Import List NArith. Import ListNotations.\nLocal Open Scope N_scope.\n")
+           "From Coq Require Import List NArith. From Coq Require String. Import String.StringSyntax. Import ListNotations.\nLocal Open Scope N_scope.\nLocal Open Scope string_scope.\n")
 
 
 def make_jobs(bases, groups, chunk):
@@ -86,18 +90,26 @@ def make_jobs(bases, groups, chunk):
     jobs, index = [], []
     for bi, cs in groups.items():
         b = bases[bi]
-        blit = vlib.coq_list(b["bytes"])
+        blit = nums_lit(b["bytes"])
         if b["tail"]:
             blit = "(%s ++ repeat %d (N.to_nat %d))" % (blit, b["tailb"], b["tail"])
         full = next((c for c in cs if c["kind"] == "valid"), None)
         for off in range(0, len(cs), chunk):
             part = cs[off:off + chunk]
             text = PRELUDE + "Definition base : bytes := %s.\n" % blit
-            text += "Definition cases : list case := %s.\n" % vlib.coq_list(part, case_lit)
+            # elaborating number literals dominates the cost: every distinct observable vector is
+            # defined once and referenced by name
+            names = {}
+            for c in part:
+                for v in (tuple(c["obs"]), tuple(c["ref"]), tuple(c["fs"] or [])):
+                    if v not in names:
+                        names[v] = "v%d" % len(names)
+                        text += "Definition %s : list N := %s.\n" % (names[v], nums_lit(v))
+            text += "Definition cases : list case := %s.\n" % vlib.coq_list(part, lambda c: case_lit(c, names))
             exprs = {"model": "model_mismatches base cases", "ref": "ref_mismatches base cases",
                      "fs": "fs_mismatches base cases", "nwf": "not_wf base cases"}
             if full is not None:
-                text += "Definition full_obs : list N := %s.\n" % vlib.coq_list(full["obs"])
+                text += "Definition full_obs : list N := %s.\n" % nums_lit(full["obs"])
                 exprs["trunc"] = "trunc_mismatches full_obs cases"
             jobs.append(("b%d_" % bi, text, exprs))
             index.append(part)
